@@ -15,8 +15,8 @@ META = {
             "source (errors.Message constants, i18n.T/Text/L/M/E/LLang/MLang/ELang literals, ui.Log/WriteLog keys with the log. "
             "prefix rule) and the shipped languages of the tree: C38_this_tree : forall k l, In k keys -> In l langs -> "
             "In (k,l) exceptions \\/ (resolves /\\ same_placeholders), closed by vm_compute (about 1400 keys x 4 languages); the "
-            "exceptions computed by Coq are the reported findings (26 keys with no text in any language on the pinned tree, "
-            "one known-finding signature per key; no placeholder mismatch). C38_fallback characterises the English fallback; "
+            "exceptions computed by Coq are the reported findings (none on the current tree: the 26 keys without text found on the "
+            "pinned tree were repaired, 18 English texts + 8 corrected call-site keys). C38_fallback characterises the English fallback; "
             "C38_negotiate_header: for every header byte string and whatever ParseFloat returns for q values the result is \"\" or a "
             "shipped language (model of the header parsing: split, trim, q=, primary subtag, lower case); C38_negotiate / "
             "C38_negotiate_best: same over candidate lists, and the choice has maximal quality among the supported candidates. "
